@@ -696,3 +696,301 @@ Proof.
   { destruct (P6 k e He Hs Hlt) as [H|[H _]]; [exact H|lia]. }
   rewrite Hc. cbn [andb]. lia.
 Qed.
+
+(* ================================================================== what an evaluation does to one entry *)
+Definition stopped_entry : entry := mkE false MAX_DT MAX_DT.
+
+Lemma remove_slot_fields k s :
+  s_now (remove_slot k s) = s_now s /\ s_done (remove_slot k s) = s_done s /\ s_pslot (remove_slot k s) = s_pslot s /\
+  s_heap (remove_slot k s) = s_heap s.
+Proof. unfold remove_slot. destruct (s_ent s k); cbn; auto. Qed.
+
+Lemma remove_slot_ent r s k :
+  s_ent (remove_slot r s) k = if Nat.eqb k r then option_map (fun _ => stopped_entry) (s_ent s k) else s_ent s k.
+Proof.
+  unfold remove_slot. destruct (Nat.eqb k r) eqn:E.
+  - apply Nat.eqb_eq in E. subst r. destruct (s_ent s k) as [e|] eqn:Ek; [|rewrite Ek; reflexivity].
+    cbn [set_ent s_ent]. rewrite upd_same. reflexivity.
+  - assert (k <> r) by (intros ->; rewrite Nat.eqb_refl in E; discriminate).
+    destruct (s_ent s r) as [e|]; [|reflexivity]. cbn [set_ent s_ent]. rewrite upd_other by assumption. reflexivity.
+Qed.
+
+Lemma remove_fold_ent rm : forall s k,
+  s_ent (fold_left (fun s k => remove_slot k s) rm s) k =
+  if existsb (Nat.eqb k) rm then option_map (fun _ => stopped_entry) (s_ent s k) else s_ent s k.
+Proof.
+  induction rm as [|r rm IH]; intros s k; cbn [fold_left existsb]; [reflexivity|].
+  rewrite IH, remove_slot_ent.
+  destruct (Nat.eqb k r); cbn [orb]; destruct (existsb (Nat.eqb k) rm); try reflexivity.
+  destruct (s_ent s k); reflexivity.
+Qed.
+
+Lemma remove_fold_fields rm : forall s,
+  s_now (fold_left (fun s k => remove_slot k s) rm s) = s_now s /\
+  s_done (fold_left (fun s k => remove_slot k s) rm s) = s_done s /\
+  s_pslot (fold_left (fun s k => remove_slot k s) rm s) = s_pslot s /\
+  s_heap (fold_left (fun s k => remove_slot k s) rm s) = s_heap s.
+Proof.
+  induction rm as [|r rm IH]; intros s; cbn [fold_left]; [auto|].
+  destruct (IH (remove_slot r s)) as [A [B [C D]]]. destruct (remove_slot_fields r s) as [A' [B' [C' D']]].
+  repeat split; congruence.
+Qed.
+
+Definition fresh_entry (now : Z) (a : addspec) : entry := mkE true MAX_DT (clamp_next now (a_next a)).
+
+Lemma create_slot_quiet a s : a_sampled a = false ->
+  s_now (create_slot a s) = s_now s /\ s_done (create_slot a s) = s_done s /\ s_pslot (create_slot a s) = s_pslot s /\
+  s_heap (create_slot a s) = s_heap s /\
+  (forall k, s_ent (create_slot a s) k =
+             if Nat.eqb k (a_slot a) then
+               match s_ent s k with
+               | Some e => if e_started e then Some e else Some (fresh_entry (s_now s) a)
+               | None => Some (fresh_entry (s_now s) a)
+               end
+             else s_ent s k).
+Proof.
+  intros Hq. unfold create_slot. rewrite Hq.
+  assert (Hset : forall k, s_ent (set_ent (a_slot a) (Some (fresh_entry (s_now s) a)) s) k =
+                           if Nat.eqb k (a_slot a) then Some (fresh_entry (s_now s) a) else s_ent s k).
+  { intros k. cbn [set_ent s_ent]. unfold upd. reflexivity. }
+  destruct (s_ent s (a_slot a)) as [e|] eqn:Ea.
+  - destruct (e_started e) eqn:Es.
+    + repeat split; try reflexivity. intros k. destruct (Nat.eqb k (a_slot a)) eqn:E; [|reflexivity].
+      apply Nat.eqb_eq in E. subst k. rewrite Ea, Es. reflexivity.
+    + repeat split; try reflexivity. intros k. fold (fresh_entry (s_now s) a). rewrite Hset.
+      destruct (Nat.eqb k (a_slot a)) eqn:E; [|reflexivity]. apply Nat.eqb_eq in E. subst k. rewrite Ea, Es. reflexivity.
+  - repeat split; try reflexivity. intros k. fold (fresh_entry (s_now s) a). rewrite Hset.
+    destruct (Nat.eqb k (a_slot a)) eqn:E; [|reflexivity]. apply Nat.eqb_eq in E. subst k. rewrite Ea. reflexivity.
+Qed.
+
+Lemma create_fold_quiet ad : (forall a, In a ad -> a_sampled a = false) -> forall s,
+  let s' := fold_left (fun s a => create_slot a s) ad s in
+  s_now s' = s_now s /\ s_done s' = s_done s /\ s_pslot s' = s_pslot s /\ s_heap s' = s_heap s /\
+  (forall k, s_ent s' k =
+             match find (fun a => Nat.eqb (a_slot a) k) ad with
+             | Some a => match s_ent s k with
+                         | Some e => if e_started e then Some e else Some (fresh_entry (s_now s) a)
+                         | None => Some (fresh_entry (s_now s) a)
+                         end
+             | None => s_ent s k
+             end).
+Proof.
+  induction ad as [|a r IH]; intros Hq s; cbn [fold_left find]; [repeat split; reflexivity|].
+  destruct (create_slot_quiet a s (Hq a (or_introl eq_refl))) as [A [B [C [D E]]]].
+  destruct (IH (fun a' H => Hq a' (or_intror H)) (create_slot a s)) as [A' [B' [C' [D' E']]]]. cbn zeta in *.
+  split; [congruence|]. split; [congruence|]. split; [congruence|]. split; [congruence|].
+  intros k. rewrite E', E, A. rewrite (Nat.eqb_sym (a_slot a) k).
+  destruct (Nat.eqb k (a_slot a)) eqn:Ek.
+  - destruct (s_ent s k) as [e|] eqn:Ee.
+    + destruct (e_started e) eqn:Es; destruct (find _ r); cbn [fresh_entry e_started]; try rewrite Es; reflexivity.
+    + destruct (find _ r); reflexivity.
+  - reflexivity.
+Qed.
+
+(* the pure effect of one loop iteration on a started entry *)
+Definition eslot_ent (nexts : nat -> Z) (t : Z) (k : nat) (e : entry) : entry :=
+  let e1 := if e_next e <=? t then mkE true (e_pulled e) (clamp_after t (nexts k)) else e in
+  let n := e_next e1 in
+  if (n <? MAX_DT) && (t <? n) then (if e_pulled e1 =? n then e1 else mkE true n n) else mkE true MAX_DT n.
+
+Lemma eslot_ent_facts nexts t k e : e_started e = true ->
+  e_started (eslot_ent nexts t k e) = true /\
+  e_next (eslot_ent nexts t k e) = if e_next e <=? t then clamp_after t (nexts k) else e_next e.
+Proof.
+  intros Hs. unfold eslot_ent. destruct (e_next e <=? t) eqn:E; cbn [e_next e_pulled e_started].
+  - destruct ((clamp_after t (nexts k) <? MAX_DT) && (t <? clamp_after t (nexts k))); [|cbn; auto].
+    destruct (e_pulled e =? clamp_after t (nexts k)); cbn; auto.
+  - destruct ((e_next e <? MAX_DT) && (t <? e_next e)); [|cbn; auto].
+    destruct (e_pulled e =? e_next e); cbn; auto.
+Qed.
+
+Lemma eval_slot_ent nexts k s :
+  s_ent (eval_slot nexts k s) k =
+  match s_ent s k with
+  | Some e => if e_started e then Some (eslot_ent nexts (s_now s) k e) else Some e
+  | None => None
+  end.
+Proof.
+  unfold eval_slot, eslot_ent. destruct (s_ent s k) as [e|] eqn:Ek; [|exact Ek].
+  destruct (e_started e) eqn:Es; cbn [negb]; [|exact Ek].
+  destruct (e_next e <=? s_now s) eqn:Ed.
+  - set (n := clamp_after (s_now s) (nexts k)).
+    cbn [e_next e_pulled].
+    destruct ((n <? MAX_DT) && (s_now s <? n)); [destruct (e_pulled e =? n)|]; cbn [hpush set_heap set_ent s_ent]; rewrite upd_same; reflexivity.
+  - destruct ((e_next e <? MAX_DT) && (s_now s <? e_next e)); [destruct (e_pulled e =? e_next e)|];
+      cbn [hpush set_heap set_ent s_ent]; rewrite upd_same; reflexivity.
+Qed.
+
+Lemma loop_ent (nexts : nat -> Z) (c : cset) : forall (l : list nat) (s : st) (k : nat), NoDup l ->
+  s_ent (fold_left (fun s k => if c k then eval_slot nexts k s else s) l s) k =
+  if existsb (Nat.eqb k) l && c k then s_ent (eval_slot nexts k s) k else s_ent s k.
+Proof.
+  induction l as [|x r IH]; intros s k Hnd; cbn [fold_left existsb]; [reflexivity|].
+  inversion Hnd as [|? ? Hnotin Hnd']. subst.
+  rewrite IH by exact Hnd'.
+  destruct (Nat.eqb k x) eqn:E.
+  - apply Nat.eqb_eq in E. subst x. cbn [orb].
+    assert (Hex : existsb (Nat.eqb k) r = false).
+    { destruct (existsb (Nat.eqb k) r) eqn:Ex; [|reflexivity]. apply existsb_exists in Ex. destruct Ex as [y [Hy Ey]].
+      apply Nat.eqb_eq in Ey. subst y. contradiction. }
+    rewrite Hex. cbn [andb]. destruct (c k); reflexivity.
+  - cbn [orb]. assert (Hne : k <> x) by (intros ->; rewrite Nat.eqb_refl in E; discriminate).
+    assert (Hsame : s_ent (if c x then eval_slot nexts x s else s) k = s_ent s k /\
+                    s_now (if c x then eval_slot nexts x s else s) = s_now s).
+    { destruct (c x); [|auto]. destruct (eval_slot_frame nexts x s) as [A [_ [_ [D _]]]]. split; [apply D; exact Hne|exact A]. }
+    destruct Hsame as [H1 H2].
+    destruct (existsb (Nat.eqb k) r && c k); [|exact H1].
+    rewrite !eval_slot_ent, H1, H2. reflexivity.
+Qed.
+
+(* the outcome of a whole evaluation for slot k, in terms of the reconciled entry *)
+Lemma do_eval_entry rm ad tk full nexts s k :
+  Good s -> s_done s = false -> (forall a, In a ad -> a_sampled a = false) ->
+  let s0 := reconcile rm ad s in
+  let s' := do_eval rm ad tk full nexts s in
+  match s_ent s0 k with
+  | None => s_ent s' k = None
+  | Some e0 =>
+      exists e', s_ent s' k = Some e' /\ e_started e' = e_started e0 /\
+        e_next e' = (if evaluated_in rm ad tk full s k then clamp_after (s_now s) (nexts k) else e_next e0) /\
+        evaluated_in rm ad tk full s k =
+          snd (prepare ad tk full s0) k && e_started e0 && (e_next e0 <=? s_now s)
+  end.
+Proof.
+  intros HG Hd Hq s0 s'. destruct HG as [HI [HP HC]].
+  pose proof (reconcile_rec rm ad s HP HC) as HR.
+  pose proof (prepare_facts ad tk full s s0 (conj HI (conj HP HC)) Hd HR) as Hprep.
+  unfold s', do_eval, evaluated_in. rewrite Hd. fold s0.
+  assert (Hpent : forall k, match s_ent s0 k with
+                            | None => s_ent (fst (prepare ad tk full s0)) k = None
+                            | Some e0 => s_ent (fst (prepare ad tk full s0)) k = Some e0 \/
+                                         s_ent (fst (prepare ad tk full s0)) k = Some (reset_pulled e0) end).
+  { intros k'. unfold prepare.
+    destruct (drain_due (due_part (s_now s0) (s_heap s0)) (s_ent s0) _) as [ent1 c1] eqn:Edr. cbn [fst s_ent].
+    pose proof (drain_due_spec (due_part (s_now s0) (s_heap s0)) (s_ent s0)
+                 (fold_left (fun c k => cadd (s_ent s0) k c) (map a_slot ad ++ tk) (fun _ => false)) k') as Sp.
+    cbn zeta in Sp. rewrite Edr in Sp. cbn [fst snd] in Sp. destruct Sp as [Sn [Ss _]].
+    destruct (s_ent s0 k') as [e0|]; [destruct (Ss e0 eq_refl) as [A _]; exact A|apply Sn; reflexivity]. }
+  destruct (prepare ad tk full s0) as [s1 c] eqn:Eprep. cbn [fst snd] in *. cbn zeta in Hprep.
+  destruct Hprep as [P1 [P2 [P3 [P4 [P5 P6]]]]].
+  assert (Hnow0 : s_now s0 = s_now s) by (destruct HR as [R1 _]; exact R1).
+  (* after the loop and finish *)
+  assert (Hfin : match s_ent (eval_loop nexts c s1) k with
+                           | None => s_ent (finish (eval_loop nexts c s1)) k = None
+                           | Some e => exists e', s_ent (finish (eval_loop nexts c s1)) k = Some e' /\
+                                                 e_started e' = e_started e /\ e_next e' = e_next e end).
+  { unfold finish.
+    set (sl := eval_loop nexts c s1).
+    assert (Hent : s_ent (match rest_part (s_now sl) (s_heap sl) with
+                          | [] => mkS (s_now sl) true (s_pslot sl) (s_cap sl) (drain_end (due_part (s_now sl) (s_heap sl)) (s_ent sl)) (rest_part (s_now sl) (s_heap sl))
+                          | _ :: _ => psched (hmin MAX_DT (rest_part (s_now sl) (s_heap sl)))
+                                        (mkS (s_now sl) true (s_pslot sl) (s_cap sl) (drain_end (due_part (s_now sl) (s_heap sl)) (s_ent sl)) (rest_part (s_now sl) (s_heap sl)))
+                          end) = drain_end (due_part (s_now sl) (s_heap sl)) (s_ent sl)).
+    { destruct (rest_part (s_now sl) (s_heap sl)); [reflexivity|]. apply psched_fields. }
+    rewrite Hent. rewrite (drain_end_eq _ _ (fun _ => false)).
+    pose proof (drain_due_spec (due_part (s_now sl) (s_heap sl)) (s_ent sl) (fun _ => false) k) as Sp. cbn zeta in Sp.
+    destruct Sp as [Sn [Ss _]].
+    destruct (s_ent sl k) as [e|]; [|apply Sn; reflexivity].
+    destruct (Ss e eq_refl) as [[A|A] _]; rewrite A; eexists; split; try reflexivity; split; reflexivity. }
+  unfold eval_loop in Hfin |- *. rewrite loop_ent in Hfin by apply seq_NoDup.
+  specialize (Hpent k).
+  destruct (s_ent s0 k) as [e0|] eqn:E0.
+  - assert (Hs1 : exists e1, s_ent s1 k = Some e1 /\ e_started e1 = e_started e0 /\ e_next e1 = e_next e0).
+    { destruct Hpent as [H|H]; rewrite H; eexists; split; try reflexivity; split; reflexivity. }
+    destruct Hs1 as [e1 [H1 [H1s H1n]]]. rewrite H1, H1s, H1n.
+    assert (Hk : (k < s_cap s1)%nat) by (eapply P5; eassumption).
+    assert (Hex : existsb (Nat.eqb k) (seq 0 (s_cap s1)) = true).
+    { apply existsb_exists. exists k. split; [apply in_seq; lia|apply Nat.eqb_refl]. }
+    rewrite Hex in Hfin. cbn [andb] in Hfin.
+    destruct (c k) eqn:Ec; cbn [andb].
+    + rewrite eval_slot_ent, H1 in Hfin. destruct (e_started e0) eqn:Es0; rewrite H1s in Hfin; cbn [andb].
+      * destruct Hfin as [e' [F1 [F2 F3]]]. destruct (eslot_ent_facts nexts (s_now s1) k e1 ltac:(congruence)) as [G1 G2].
+        exists e'. split; [exact F1|]. split; [congruence|]. split; [|reflexivity].
+        rewrite F3, G2, H1n, P1. destruct (e_next e0 <=? s_now s); reflexivity.
+      * destruct Hfin as [e' [F1 [F2 F3]]]. exists e'. split; [exact F1|]. split; [congruence|]. split; [congruence|reflexivity].
+    + rewrite H1 in Hfin. destruct Hfin as [e' [F1 [F2 F3]]]. exists e'. split; [exact F1|]. split; [congruence|]. split; [congruence|reflexivity].
+  - destruct (existsb (Nat.eqb k) (seq 0 (s_cap s1)) && c k).
+    + rewrite eval_slot_ent, Hpent in Hfin. exact Hfin.
+    + rewrite Hpent in Hfin. exact Hfin.
+Qed.
+
+(* a due, started entry of the reconciled store is a candidate: with [do_eval_entry] this is
+   [due_child_is_evaluated] phrased for any state satisfying the invariant *)
+Lemma cand_due rm ad tk full s k e0 :
+  Good s -> s_done s = false ->
+  s_ent (reconcile rm ad s) k = Some e0 -> e_started e0 = true -> e_next e0 < MAX_DT -> e_next e0 <= s_now s ->
+  snd (prepare ad tk full (reconcile rm ad s)) k = true.
+Proof.
+  intros [HI [HP HC]] Hd E0 Hs Hl Hn.
+  pose proof (reconcile_rec rm ad s HP HC) as HR.
+  pose proof (prepare_facts ad tk full s (reconcile rm ad s) (conj HI (conj HP HC)) Hd HR) as Hprep.
+  set (s0 := reconcile rm ad s) in *.
+  assert (Hpent : s_ent (fst (prepare ad tk full s0)) k = Some e0 \/ s_ent (fst (prepare ad tk full s0)) k = Some (reset_pulled e0)).
+  { unfold prepare.
+    destruct (drain_due (due_part (s_now s0) (s_heap s0)) (s_ent s0) _) as [ent1 c1] eqn:Edr. cbn [fst s_ent].
+    pose proof (drain_due_spec (due_part (s_now s0) (s_heap s0)) (s_ent s0)
+                 (fold_left (fun c k => cadd (s_ent s0) k c) (map a_slot ad ++ tk) (fun _ => false)) k) as Sp.
+    cbn zeta in Sp. rewrite Edr in Sp. cbn [fst snd] in Sp. destruct Sp as [_ [Ss _]].
+    destruct (Ss e0 E0) as [A _]. exact A. }
+  destruct (prepare ad tk full s0) as [s1 c]. cbn [fst snd] in *. cbn zeta in Hprep.
+  destruct Hprep as [P1 [P2 [P3 [P4 [P5 P6]]]]].
+  destruct Hpent as [H|H].
+  - destruct (P6 k e0 H Hs Hl) as [Hc|[Hc _]]; [exact Hc|lia].
+  - destruct (P6 k (reset_pulled e0) H Hs Hl) as [Hc|[Hc _]]; [exact Hc|cbn in Hc; lia].
+Qed.
+
+(* input notifications for the current time, before the map node runs *)
+Lemma do_push_now k s :
+  s_done s = false ->
+  let s' := do_push k (s_now s) s in
+  s_now s' = s_now s /\ s_done s' = false /\
+  (forall k', s_ent s' k' =
+      match s_ent s k' with
+      | Some e => if Nat.eqb k' k && e_started e then Some (mkE true (e_pulled e) (Z.min (e_next e) (s_now s))) else Some e
+      | None => None
+      end).
+Proof.
+  intros Hd. unfold do_push. rewrite Z.max_id.
+  destruct (s_ent s k) as [e|] eqn:Ek.
+  2:{ split; [reflexivity|]. split; [exact Hd|]. intros k'. destruct (s_ent s k') as [x|] eqn:Ex; [|reflexivity].
+      destruct (Nat.eqb k' k) eqn:E; [apply Nat.eqb_eq in E; subst; congruence|reflexivity]. }
+  assert (Hok : push_ok (s_now s) s = true).
+  { unfold push_ok. rewrite Hd. cbn [negb]. rewrite Z.ltb_irrefl. cbn. rewrite andb_false_r. reflexivity. }
+  rewrite Hok, andb_true_r.
+  destruct (e_started e) eqn:Es.
+  - match goal with |- context [psched ?ww ?ss] => destruct (psched_fields ww ss) as [F1 [F2 [F3 [F4 F5]]]] end.
+    rewrite F1, F2, F4. cbn [hpush set_heap set_ent s_now s_done s_ent]. split; [reflexivity|]. split; [exact Hd|].
+    intros k'. destruct (Nat.eqb k' k) eqn:E.
+    + apply Nat.eqb_eq in E. subst k'. rewrite upd_same, Ek, Es. reflexivity.
+    + assert (k' <> k) by (intros ->; rewrite Nat.eqb_refl in E; discriminate). rewrite upd_other by assumption.
+      destruct (s_ent s k'); reflexivity.
+  - split; [reflexivity|]. split; [exact Hd|]. intros k'. destruct (s_ent s k') as [x|] eqn:Ex; [|reflexivity].
+    destruct (Nat.eqb k' k) eqn:E; [|reflexivity]. apply Nat.eqb_eq in E. subst k'. rewrite Ek in Ex. inversion Ex. subst x. rewrite Es. reflexivity.
+Qed.
+
+Lemma push_fold_now l : forall s,
+  s_done s = false ->
+  let s' := fold_left (fun s k => do_push k (s_now s) s) l s in
+  s_now s' = s_now s /\ s_done s' = false /\
+  (forall k', match s_ent s k' with
+              | Some e => exists e', s_ent s' k' = Some e' /\ e_started e' = e_started e /\
+                            e_next e' = (if existsb (Nat.eqb k') l && e_started e then Z.min (e_next e) (s_now s) else e_next e)
+              | None => s_ent s' k' = None
+              end).
+Proof.
+  induction l as [|k r IH]; intros s Hd; cbn [fold_left existsb].
+  - split; [reflexivity|]. split; [exact Hd|]. intros k'. destruct (s_ent s k'); [eexists; split; [reflexivity|]; split; reflexivity|reflexivity].
+  - destruct (do_push_now k s Hd) as [A [B C]]. cbn zeta in *.
+    destruct (IH (do_push k (s_now s) s) B) as [A' [B' C']]. cbn zeta in *.
+    split; [congruence|]. split; [exact B'|]. intros k'. specialize (C k'). specialize (C' k'). rewrite C in C'.
+    destruct (s_ent s k') as [e|]; [|exact C'].
+    destruct (Nat.eqb k' k && e_started e) eqn:E.
+    + destruct C' as [e' [H1 [H2 H3]]]. exists e'. split; [exact H1|]. cbn [e_started e_next] in *.
+      apply andb_true_iff in E. destruct E as [E1 E2]. split; [congruence|]. rewrite H3, E1, E2, A. cbn [orb andb].
+      destruct (existsb (Nat.eqb k') r); cbn [andb]; lia.
+    + destruct C' as [e' [H1 [H2 H3]]]. exists e'. split; [exact H1|]. split; [exact H2|]. rewrite H3, A.
+      destruct (Nat.eqb k' k) eqn:E1; cbn [orb andb] in *; [rewrite E; destruct (existsb (Nat.eqb k') r); cbn; rewrite ?E; reflexivity|reflexivity].
+Qed.
+
+Lemma push_fold_good l : forall s, Good s -> Good (fold_left (fun s k => do_push k (s_now s) s) l s).
+Proof. induction l as [|k r IH]; intros s H; cbn [fold_left]; [exact H|]. apply IH. apply good_push. exact H. Qed.
